@@ -25,7 +25,7 @@ LEVEL = "exploration"
 BATCH = 10
 TIMEOUT = 120
 USES_LAB = False
-REQUIRED_OBS = ["steps_checked", "invariant_evaluations", "op_remove", "op_set_allowed", "op_dedupe", "extend_runs", "op_add_file", "allowed_spelling_cases"]
+REQUIRED_OBS = ["steps_checked", "invariant_evaluations", "op_remove", "remove_indices_repeated", "op_set_allowed", "op_dedupe", "extend_runs", "op_add_file", "allowed_spelling_cases"]
 RULE = ("random edit histories (add instance / add string / add from file, remove by index, index list, instance, instance "
         "list, set allowed, set required, find+remove duplicates, append depletion and desorption reactions, reindex) of length "
         "<= 14 (quick) / 120 (thorough) over alphabets of 4-8 species; plus `naunet extend` runs on generated files; "
@@ -293,7 +293,12 @@ def run_api(case, ctx, obs, viol):
                 if not model.held:
                     continue
                 idxs = sorted({int(p * len(model.held)) for p in op["pos"]})
-                net.remove_reaction(idxs)
+                arg = list(idxs)
+                if int(op["pos"][0] * 1000) % 2 == 0:
+                    # the same index named twice, in no particular order (e.g. where_species(a) + where_species(b)): still removed once
+                    arg = arg[::-1] + [arg[0]]
+                    obs["remove_indices_repeated"] += 1
+                net.remove_reaction(arg)
                 model.held = [h for i, h in enumerate(model.held) if i not in idxs]
             elif name in ("remove_instance", "remove_instances"):
                 if not model.held:
